@@ -769,13 +769,15 @@ def gen_case(rng, f1_fixed):
 
 def extract(chk: Check) -> bool:
     from translator import c02_extract, py2coq
+    name = 'extract:units.py+storage/container.py+trajectories/{trajectory,ground_track}.py+builders/{base,legacy}.py'
     try:
         text = c02_extract.extract(REPO)
     except py2coq.Untranslatable as e:
-        chk.obligations.append({'name': 'extract:units.py+builders/legacy.py', 'ok': False})
-        chk.broken('extract:units.py+builders/legacy.py', str(e))
+        part = getattr(e, 'part', None)
+        chk.obligations.append({'name': f'extract:{part}' if part else name, 'ok': False})
+        chk.broken(f'extract:{part}' if part else name, str(e))
         return False
-    chk.obligations.append({'name': 'extract:units.py+builders/legacy.py', 'ok': True})
+    chk.obligations.append({'name': name, 'ok': True})
     if chk.coq_compile_gen('C02_Extracted', text) is None:
         return False
     return chk.coq_link('C02_Link.v')
